@@ -139,6 +139,21 @@ PROPS = {
         "note": "template arguments (characters, masks, values) are compile-time: boundary-structured samples only; the native "
                 "aggregator for the large spaces is trusted code cross-checked by raw sampled records",
     },
+    "C12": {
+        "families": ["tree"],
+        "must_count": ["tree", "cases"],
+        "nontrivial_key": "tree",
+        "level": "every case is run twice: traced (each invocation validated against Den, from which TLC builds the surviving "
+                 "derivation of the selected rules: successful invocations whose ancestors all succeeded, including those inside a "
+                 "succeeding and-predicate, with the documented effect of store/remove_content, fold_one, discard_empty) and through "
+                 "parse_tree::parse; TLC requires: tree iff the plain parse succeeds, exception iff it throws, node list equal to the "
+                 "derivation in order, nesting and spans (containment / ordering follow where they apply: nodes made inside a "
+                 "succeeding and-predicate legitimately extend beyond their ancestors)",
+        "rule": "cases = grammar with selector kinds on named rules (recursion deeper than the 8-level leaf optimisation, nested "
+                "brackets, backtracking / look-ahead / caught exceptions around selected rules, seeded random) x input x {selector by "
+                "rule, all rules selected, with throwing actions}; non-trivial = trees compared",
+        "note": "parse_tree_to_dot is not covered",
+    },
     "C13": {
         "families": ["st", "act"],
         "must_count": ["state", "act", "cases"],
